@@ -257,7 +257,8 @@ def schedule(rep, prog):
                 m = strip(c["c"][0])
                 if m.get("k") == "BinaryOperator" and m.get("op") == "%" and render(m["c"][0]) == "iteration_" and strip(m["c"][1]).get("v") == "50":
                     ok = len(fi.guards(wd[0])) == 1
-        a = [render(x) for x in call_args(wd[0])]
+        from ..model import expand_text
+        a = [expand_text(it, x).replace("this->", "") for x in call_args(wd[0])]
         ok = ok and a[0] == "iteration_" and "get_simulation_time" in a[1] and a[2] == "cell_lst_"
     if ok:
         rep.ok("C19.stats-schedule", prog, it, wd[0], "write_data(iteration_, simulation time, cell_lst_) under iteration_ % 50 == 0")
@@ -270,7 +271,7 @@ def schedule(rep, prog):
         rep.violation("C19.stats-schedule", prog, it, incs[0] if incs else None, "iteration_ is not incremented exactly once per iteration", "run_iteration must contain exactly one unconditional 'iteration_++' (found %d modification(s))" % len(incs))
     rn = prog.fn("solver::run")
     ri = prog.index(rn)
-    loops = [n for n in walk(rn["body"]) if n.get("k") == "WhileStmt"]
+    loops = [n for n in walk(rn["body"]) if n.get("k") in ("WhileStmt", "ForStmt", "DoStmt") and any(is_call(x) and x.get("callee") == "solver::run_iteration" for x in walk(n["body"]))]
     wd2 = [n for n in walk(rn["body"]) if n.get("k") == "CXXMemberCallExpr" and n.get("callee", "").endswith("::write_data")]
     if len(loops) == 1 and len(wd2) == 1 and ri.order[id(wd2[0])] > max(ri.order[id(x)] for x in walk(loops[0])) and not ri.guards(wd2[0]) and any(is_call(x) and x.get("callee") == "solver::run_iteration" for x in walk(loops[0]["body"])):
         rep.ok("C19.stats-schedule", prog, rn, wd2[0], "run(): iterations in the loop, one final unconditional write_data after it")
